@@ -58,6 +58,36 @@ def consts(ctx, F):
     ctx.floor(r, 13, "limit constant instances")
 
 
+def _classification_semantics(F, b):
+    from .. import evalx
+    evalx.set_target(F)
+    lp = F.impl_consts("length::LengthProcessingInfo<", "length::ConstrainedLengthProcessingInfo")
+    S = sym.Sym(b)
+    paths = S.paths()
+    # the function must depend on len only through comparisons with constants
+    for p in paths:
+        for (_, d, _, _) in p.conds:
+            e = n(d)
+            if not (e[0] == "bin" and e[1] in ("Lt", "Le", "Eq", "Ne") and P(1) in (e[2], e[3]) and (e[2][0] in ("cpath", "const") or e[3][0] in ("cpath", "const"))):
+                return "branches on %s" % sym.fmt(e)[:80]
+    for key, cv in sorted(lp.items()):
+        mn, mc, mx = cv.get("MIN"), cv.get("MIN_CONSERVATIVE"), cv.get("MAX")
+        if None in (mn, mc, mx):
+            return "limit constants of %s unknown" % key
+        nb = int(key.split("<")[1].rstrip(">"))
+        pts = sorted({0, 1, 0xFFFFFFFF} | {c + d for c in (mn, mc, mx) for d in (-1, 0, 1) if 0 <= c + d <= 0xFFFFFFFF})
+        for ln in pts:
+            asg = {"symbolic": True, "params": {1: ln}, "cparams": {"SIZE_BUCKETS": nb}, "cpath_values": {"MIN": mn, "MIN_CONSERVATIVE": mc, "MAX": mx}}
+            try:
+                got = evalx.run(S, F, paths, asg)
+            except (evalx.Unknown, evalx.Panics) as ex:
+                return "cannot evaluate: %s" % ex
+            want = "TooSmall" if ln < mn else ("ValidWhenOptimistic" if ln < mc else ("Valid" if ln <= mx else "TooLarge"))
+            if got != ("adt", "length::DataLengthValidity::" + want):
+                return "%d buckets, len %d: %s; reference %s" % (nb, ln, got, want)
+    return None
+
+
 def classification(ctx, F):
     r = "R-10.2"
     ctx.rule(r, "DataLengthValidity::new is the decision list <MIN TooSmall, <MIN_CONSERVATIVE ValidWhenOptimistic, <=MAX Valid, else TooLarge; is_err/is_err_on tables")
@@ -78,16 +108,31 @@ def classification(ctx, F):
         ([(c_min, False), (c_minc, False), (c_max, False)], var("TooLarge")),
     ])
     got = sorted(repr(x) for x in cmpmodel.decision(b))
-    ctx.ob(r, ("DataLengthValidity::new", "decision-list"), got == want,
-           "DataLengthValidity::new is %s" % [([(sym.fmt(c), t) for c, t in cs], sym.fmt(ret)) for cs, ret in cmpmodel.decision(b)], cfg=F.key, where=b.where())
+    why = None
+    if got != want:
+        # any other spelling: the function only compares len with constants, so it is decided by evaluating it at every
+        # boundary of those constants (c-1, c, c+1) plus the ends of the u32 range, for each bucket count
+        why = _classification_semantics(F, b)
+    ctx.ob(r, ("DataLengthValidity::new", "decision-list"), why is None,
+           "DataLengthValidity::new is not <MIN TooSmall, <MIN_CONSERVATIVE ValidWhenOptimistic, <=MAX Valid, else TooLarge: %s" % why, cfg=F.key, where=b.where())
     # constants are read from LengthProcessingInfo<SIZE_BUCKETS>
     selfs = set()
+
+    def scan(o):
+        c = (o or {}).get("const") if isinstance(o, dict) else None
+        if c and c.get("k") == "uneval":
+            selfs.add(tuple(F.tys(a["ty"]) if a.get("k") == "ty" else str(a.get("n") or a.get("v")) for a in c["args"]))
+
     for blk in b.blocks:
         for s in blk["stmts"]:
-            for k in ("a", "b"):
-                c = (s.get(k) or {}).get("const")
-                if c and c.get("k") == "uneval":
-                    selfs.add(tuple(F.tys(a["ty"]) if a.get("k") == "ty" else str(a.get("n") or a.get("v")) for a in c["args"]))
+            for k in ("a", "b", "op"):
+                scan(s.get(k))
+            for o in s.get("ops") or []:
+                scan(o)
+        t_ = blk["term"]
+        for o in (t_.get("args") or []):
+            scan(o)
+        scan(t_.get("discr"))
     ctx.ob(r, ("DataLengthValidity::new", "constants-of-SIZE_BUCKETS"), selfs == {("length::LengthProcessingInfo<SIZE_BUCKETS>",)},
            "limit constants are taken from %s; reference LengthProcessingInfo<SIZE_BUCKETS>" % sorted(selfs), cfg=F.key, trivial=True)
     tab, err = common.enum_decision(F, "length::DataLengthValidity::is_err_on", {1: "length::DataLengthValidity", 2: "length::DataLengthProcessingMode"})
